@@ -69,6 +69,9 @@ const (
 type wiringT struct {
 	env      [6]bool
 	groups   []cfgT
+	// special are the special-domain switches of the filtering groups in the
+	// configuration file: private relay, firefox canary, chrome prefetch.
+	special  map[int][3]bool
 	sgs      []srvGrpT
 	ede, sde bool
 	yaml     string
@@ -143,6 +146,15 @@ func yb(b bool) string {
 // config.dist.yaml documents them.
 func (w *wiringT) confYAML(u *universe) string {
 	var b strings.Builder
+	if w.special == nil {
+		// Drawn from the universe's name so that the file is a function of the
+		// universe; every combination occurs over the groups of a run.
+		w.special = map[int][3]bool{}
+		for i := range w.groups {
+			k := (len(u.sb.repl) + 3*i + len(w.groups)) % 8
+			w.special[i] = [3]bool{k&1 != 0, k&2 != 0, k&4 != 0}
+		}
+	}
 	fmt.Fprintf(&b, "filters:\n  response_ttl: %dms\n  custom_filter_cache_size: 100\n  safe_search_cache_size: 100\n", u.gmode.ttl)
 	b.WriteString("  refresh_interval: 1h\n  refresh_timeout: 5s\n  index_refresh_timeout: 5s\n  rule_list_refresh_timeout: 5s\n  max_size: 640KB\n")
 	fmt.Fprintf(&b, "  ede_enabled: %s\n  sde_enabled: %s\n  rule_list_cache:\n    enabled: true\n    size: 100\n", yb(w.ede), yb(w.sde))
@@ -161,7 +173,8 @@ func (w *wiringT) confYAML(u *universe) string {
 		fmt.Fprintf(&b, "    rule_lists:\n      enabled: %s\n      ids: [%s]\n", yb(c.rlOn), strings.Join(ids, ", "))
 		fmt.Fprintf(&b, "    safe_browsing:\n      enabled: %s\n      block_dangerous_domains: %s\n      block_newly_registered_domains: %s\n",
 			yb(c.sbOn), yb(c.sb), yb(c.nr))
-		fmt.Fprintf(&b, "    block_private_relay: false\n    block_firefox_canary: false\n    block_chrome_prefetch: false\n")
+		sp := w.special[i]
+		fmt.Fprintf(&b, "    block_private_relay: %s\n    block_firefox_canary: %s\n    block_chrome_prefetch: %s\n", yb(sp[0]), yb(sp[1]), yb(sp[2]))
 	}
 	return b.String()
 }
